@@ -15,7 +15,13 @@ Record scase := {
   c_refused : list nat;                 (* members whose own @expose raised *)
   c_reqs : list (request * robs)
 }.
-Inductive case := SC (c : scase) | PC (n : text) (impl_private : bool).
+(* a history over several objects registered in one daemon (their classes may share a name): get_metadata
+   calls and requests, in order; the model threads the per-class metadata cache through it *)
+Inductive hop :=
+| HMeta (obj : nat) (methods oneway attrs : list text)
+| HReq (obj : nat) (r : request) (o : robs).
+Record hcase := { h_quirks : quirks; h_classes : list shape; h_objects : list nat; h_ops : list hop }.
+Inductive case := SC (c : scase) | PC (n : text) (impl_private : bool) | HC (c : hcase).
 
 Definition reply_eqb (a b : reply) : bool :=
   match a, b with RepResult, RepResult | RepError, RepError | RepNone, RepNone => true | _, _ => false end.
@@ -45,8 +51,21 @@ Definition check_scase (c : scase) : bool :=
 Definition bad_reqs (c : scase) : list nat :=
   mismatches (check_req (c_quirks c) (c_shape c)) (c_reqs c).
 
+Fixpoint check_hist (q : quirks) (classes : list shape) (objs : list nat) (c : cache) (ops : list hop) : bool :=
+  match ops with
+  | [] => true
+  | HMeta o ms os ats :: rest =>
+      let '(md, c') := get_metadata isp (fun k => k) classes c (class_of objs o) in
+      let '(mm, mo, ma) := md in
+      set_eqb mm ms && set_eqb mo os && set_eqb ma ats && check_hist q classes objs c' rest
+  | HReq o r ob :: rest =>
+      check_req q (nth (class_of objs o) classes empty_shape) (r, ob) && check_hist q classes objs c rest
+  end.
+Definition check_hcase (c : hcase) : bool := check_hist (h_quirks c) (h_classes c) (h_objects c) [] (h_ops c).
+
 Definition check_case (c : case) : bool :=
   match c with
   | SC c => check_scase c
   | PC n b => Bool.eqb (isp n) b
+  | HC c => check_hcase c
   end.
